@@ -71,6 +71,14 @@ def check(R, tier):
         R.samples.append({'key lists (two hops)': kls, 'paths': len(paths)})
     # ---- end to end: after a rotation the fast-forwarded stored versions do not lock the client out
     sums = build_summaries(I, hops=1); R.check_interp_clean(I, 'summaries')
+    # second mechanism: a stored document that no longer verifies under the current root is ignored by the rollback comparison, so a client whose
+    # trusted root already carries the new online keys (no root walk crosses the rotation, step 1.9 has nothing to compare) is not locked out either
+    for s, f in zip(sums[1:], ('timestamp.json', 'snapshot.json', 'targets.json')):
+        pres, prs, old = s.P.ds[f]
+        for p in s.paths:
+            if 'OlderMetadata' in p.cls:
+                R.obligation(f'load_{s.name}: OlderMetadata only against a stored document that is present, parses and verifies under the current root', p.pc, z3.And(pres, prs, V(s.P.root, old)),
+                             decode=lambda m, nm=s.name: {'kind': 'stale-store', 'role': nm}, group='guard/' + s.name)
     shipped, cyc, f = C03.build_history(sums, 2, 'r')
     a, b = cyc
     rotated = z3.Or(KS(a.root, IDV(TS)) != KS(b.root, IDV(TS)), KS(a.root, IDV(SN)) != KS(b.root, IDV(SN)))
@@ -121,10 +129,31 @@ def finalize(R, sums):
         elif c1['ok'] and not changed and c2['ok'] and not reported:
             R.report_violation(f'two root updates in one walk ({what}): stored timestamp/snapshot no longer protect (version 1 accepted after 2^63)', scen); reported = True
         else: R.differential['agree'] += 1
+    # the trusted root already carries the new online keys (shipped with an application update): the stored, fast-forwarded timestamp / snapshot
+    # do not verify under it and must be ignored.  Replay of the guard/* counterexamples, and run on every check.
+    def root4(v, ts, sn):
+        return {'version': v, 'consistent': False, 'table': sorted({0, 13, ts, sn}), 'signers': [0],
+                'roles': {'root': {'keys': [0], 'thr': 1}, 'timestamp': {'keys': [ts], 'thr': 1}, 'snapshot': {'keys': [sn], 'thr': 1}, 'targets': {'keys': [13], 'thr': 1}}}
+    stale_dev = False
+    for what, ts2, sn2, v2 in (('both online keys replaced', 4, 10, {'timestamp': 1, 'snapshot': 1}), ('only the snapshot key replaced', 1, 10, {'timestamp': 2 ** 63 + 1, 'snapshot': 5}),
+                               ('only the timestamp key replaced', 4, 7, {'timestamp': 3, 'snapshot': 2 ** 63})):
+        scen = {'nkeys': 14, 'roots': [root4(1, 1, 7), root4(2, ts2, sn2)], 'cycles': [
+            {'shipped': 0, 'serve_roots': {}, 'safe': False, 'timestamp': {'version': 2 ** 63, 'signers': [1]}, 'snapshot': {'version': 2 ** 63, 'signers': [7]}, 'targets': {'version': 1, 'signers': [13]}},
+            {'shipped': 1, 'serve_roots': {}, 'safe': False, 'timestamp': {'version': v2['timestamp'], 'signers': [ts2]}, 'snapshot': {'version': v2['snapshot'], 'signers': [sn2]}, 'targets': {'version': 1, 'signers': [13]}}]}
+        real = R.replay('history', scen); c1, c2 = real['cycles']
+        R.differential['scenarios'] += 1
+        if c1['ok'] and not c2['ok'] and c2.get('err') == 'OlderMetadata':
+            stale_dev = True
+            if not reported:
+                R.report_violation(f'the trusted root already carries the new online keys ({what}); the stored fast-forwarded document does not verify under it, yet it still locks the client out: {c2.get("msg", "")[:140]}', scen); reported = True
+        else: R.differential['agree'] += 1
     unrepro = []
     for cx in R.counterexamples:
         sc = cx.get('scenario')
         if cx['group'].startswith('composition/'): continue
+        if cx['group'].startswith('guard/'):
+            if not stale_dev: unrepro.append(cx)
+            continue
         if cx['group'].endswith('/2-hops'):
             if not reported: unrepro.append(cx)
         elif cx['group'] in ('rotation-deletes', 'no-rotation-keeps') and sc:
